@@ -9,14 +9,17 @@ import (
 	"math"
 	"os"
 	"path/filepath"
+	"runtime/debug"
 	"sort"
 	"strings"
 	"testing"
+	"time"
 
 	"github.com/zerx-lab/wordZero/pkg/document"
 	"pgregory.net/rapid"
 
 	"wzverif/internal/canon"
+	"wzverif/internal/foreign"
 	"wzverif/internal/gen"
 	"wzverif/internal/kit"
 	"wzverif/internal/opc"
@@ -25,7 +28,7 @@ import (
 
 func TestMain(m *testing.M) {
 	document.SetGlobalLevel(document.LogLevelSilent)
-	kit.TestMain(m, 600, 6000)
+	kit.TestMain(m, 700, 7000)
 }
 
 // Case: a document built by a history of API calls, then Cycles save/open cycles.
@@ -33,6 +36,9 @@ type Case struct {
 	Ops    []ops.Op `json:"ops"`
 	Cycles int      `json:"cycles"` // 1..4: B1=save(D), D2=open(B1), B2=save(D2) is cycle 1; every further cycle adds open+save
 	File   bool     `json:"file"`   // reopen through Save/Open on a file instead of ToBytes/OpenFromMemory
+	// Foreign, when set, replaces the API-built document by a package of the independent foreign-package generator:
+	// only the stability clause is judged on it (foreign_src.go); Ops is empty then.
+	Foreign *foreign.Package `json:"foreign,omitempty"`
 }
 
 // ---------------------------------------------------------------------------------------------
@@ -46,7 +52,7 @@ var weights = map[string]int{
 	"align": 3, "spacing": 3, "indent": 3, "keepnext": 2, "keeplines": 2, "pbb": 2, "widow": 2, "outline": 2, "snap": 2, "pstyle": 2,
 	"hrule": 2, "pborder": 2, "pformat": 4,
 	// multi-valued formatting whose parts are drawn independently (ops/c03_sides.go)
-	"pborder4": 4, "cellpborder4": 2, "cellborders6": 3, "tblborders6": 3, "runfonts": 3, "ptabs": 3, "tcmar": 2, "tblcellmar": 2,
+	"pborder4": 4, "cellpborder4": 2, "cellborders6": 3, "tblborders6": 3, "runfonts": 3, "ptabs": 4, "tcmar": 2, "tblcellmar": 2,
 	// run level
 	"addtext": 6, "ppagebreak": 2, "pbold": 2, "pitalic": 1, "punderline": 2, "pstrike": 1, "phighlight": 2, "pfont": 2, "psize": 2, "pcolor": 2,
 	// tables
@@ -228,7 +234,28 @@ func (tr *tracker) aim(t *rapid.T, o *ops.Op) {
 	}
 }
 
+// source of the case: 0 = ordinary API history, 1 = foreign package (stability clause only), 2 = API history with
+// parts of unusual size (big.go). Slot 0 is the ordinary one, so that shrinking moves towards it.
+var sourceSlots = func() []int {
+	out := make([]int, 100)
+	for i := range out {
+		switch {
+		case i%7 == 6:
+			out[i] = 1 // 14 slots, drawn in ~11 % of the cases
+		case i == 20 || i == 50 || i == 80:
+			out[i] = 2 // drawn in ~2 % of the cases
+		}
+	}
+	return out
+}()
+
 func genCase(t *rapid.T) Case {
+	switch src := rapid.SampledFrom(sourceSlots).Draw(t, "source"); {
+	case src == 1:
+		return genForeignCase(t)
+	case src == 2 || (kit.Tier == "thorough" && rapid.IntRange(0, 39).Draw(t, "source2") == 39):
+		return genBigCase(t)
+	}
 	var c Case
 	tr := &tracker{}
 	add := func(k string) {
@@ -418,8 +445,7 @@ func blips(s *saved, masked bool) []string {
 			case !ok2:
 				out = append(out, "missing-part:"+tgt)
 			default:
-				h := sha1.Sum(data)
-				out = append(out, fmt.Sprintf("%s(%d bytes)", hex.EncodeToString(h[:8]), len(data)))
+				out = append(out, blipKey(data))
 			}
 		}
 		for _, k := range n.Kids {
@@ -553,14 +579,14 @@ var formatSetters = map[string]bool{"cellpborder4": true, "cellborders6": true, 
 var paraTarget = map[string]bool{"align": true, "spacing": true, "indent": true, "keepnext": true, "keeplines": true, "pbb": true, "widow": true, "outline": true,
 	"snap": true, "pstyle": true, "hrule": true, "pborder": true, "pformat": true, "addtext": true, "ppagebreak": true, "pbold": true, "pitalic": true, "punderline": true,
 	"pstrike": true, "phighlight": true, "pfont": true, "psize": true, "pcolor": true, "inlinemath": true, "rmpara": true,
-	"pborder4": true, "runfonts": true, "ptabs": true}
+	"pborder4": true, "runfonts": true, "ptabs": true, "bigaddtext": true, "manyruns": true}
 var imageTarget = map[string]bool{"imgalt": true, "imgtitle": true, "imgalign": true}
 var tableTarget = map[string]bool{"celltext": true, "cellpara": true, "cellftext": true, "celladdtext": true, "cellfpara": true, "celllist": true, "cellfmt": true,
 	"cellfmtdir": true, "cellimg": true, "cellshading": true, "celldir": true, "cellpad": true, "cellborders": true, "rmcellborders": true, "clearcell": true,
 	"clearcellfmt": true, "clearcellparas": true, "unmerge": true, "nested": true, "nestedh": true, "mergeh": true, "mergev": true, "merger": true, "rowheight": true,
 	"rowheader": true, "rowkeep": true, "delrow": true, "insrow": true, "approw": true, "headerrows": true, "rowheightrange": true, "delcol": true, "inscol": true,
 	"appcol": true, "tblstyle": true, "tblborders": true, "tblshading": true, "altrows": true, "tblalign": true, "rmtblborders": true,
-	"cellpborder4": true, "cellborders6": true, "tblborders6": true, "tcmar": true, "tblcellmar": true}
+	"cellpborder4": true, "cellborders6": true, "tblborders6": true, "tcmar": true, "tblcellmar": true, "bigcellimg": true, "bigcelltext": true}
 
 // hasTarget: the op has an object to act on (an op without one is a no-op of the interpreter, not an API call).
 func hasTarget(x *ops.Exec, k string) bool {
@@ -575,12 +601,28 @@ func hasTarget(x *ops.Exec, k string) bool {
 	return true
 }
 
+func mkScratch() (string, error) { return os.MkdirTemp(kit.Scratch, "c03-") }
+func rmScratch(dir string)       { os.RemoveAll(dir) }
+
+func canonDiffNoMask(a, b *saved) string { return canon.Diff(a.main, b.main, nil) }
+
+// blipKey is the form in which blips() reports the bytes behind a picture: hash and length.
+func blipKey(data []byte) string {
+	h := sha1.Sum(data)
+	return fmt.Sprintf("%s(%d bytes)", hex.EncodeToString(h[:8]), len(data))
+}
+
 func run(c Case) *kit.Result {
+	if c.Foreign != nil {
+		return runForeign(c)
+	}
 	res := &kit.Result{}
 	document.VerifResetGlobals()
-	dir, _ := os.MkdirTemp(kit.Scratch, "c03-")
-	defer os.RemoveAll(dir)
+	dir, _ := mkScratch()
+	defer rmScratch(dir)
 	x := ops.NewExec(dir)
+	bs := &bigState{}
+	supplied := map[string]bool{} // pictures handed to the API by successful calls
 
 	// 1. build
 	var shape []string
@@ -593,7 +635,9 @@ func run(c Case) *kit.Result {
 		var err error
 		target := hasTarget(x, op.K)
 		p, _ := kit.Try(func() {
-			if ops.IsSides(op.K) {
+			if isBig(op.K) {
+				err = doBig(x, op, bs)
+			} else if ops.IsSides(op.K) {
 				err = x.DoSides(op)
 			} else if ops.IsExtra(op.K) {
 				err = x.DoExtra(op)
@@ -614,6 +658,9 @@ func run(c Case) *kit.Result {
 			e = "err"
 		} else if target {
 			okKinds[op.K] = true
+			if isImageOp(op.K) && op.Img != nil {
+				supplied[blipKey(op.Img.Bytes())] = true
+			}
 			if ops.IsSides(op.K) {
 				// parts that differ from each other: the only inputs on which a confusion of the parts can show
 				if n := ops.DistinctSides(op); n >= 2 {
@@ -751,6 +798,16 @@ func run(c Case) *kit.Result {
 			nFmt++
 		}
 	}
+	for _, data := range bs.supplied {
+		supplied[blipKey(data)] = true
+	}
+	if len(bs.labels) > 0 {
+		res.Label("big:any")
+		for l := range bs.labels {
+			res.Label(l)
+		}
+	}
+	res.Label("source:api")
 	res.Label(fmt.Sprintf("cycles:%d", c.Cycles))
 	if c.Cycles >= 3 {
 		res.Label("cycles>=3")
@@ -761,6 +818,11 @@ func run(c Case) *kit.Result {
 		res.Label("via:memory")
 	}
 	res.Nontrivial = (len(kinds) >= 3 || feat["merge-h"] || feat["merge-v"] || feat["nested-table"]) && nFmt >= 2 && c.Cycles >= 2
+	if len(bs.labels) > 0 {
+		// a document with a part of unusual size that went through at least one full cycle and one stability cycle
+		res.Nontrivial = c.Cycles >= 2
+		defer debug.FreeOSMemory()
+	}
 	if len(kinds) >= 3 {
 		res.Label("rule:>=3-body-kinds")
 	}
@@ -839,6 +901,14 @@ func run(c Case) *kit.Result {
 	res.Eval("C03.RT4")
 	if d := seqDiff(blips(s1, true), blips(s2, true)); d != "" {
 		res.Fail("C03.RT4", "pictures (bytes behind every a:blip, document order) first save vs after Open+save: %s", d)
+	}
+	// "same pictures" is said of the document that was built: every picture the saved-and-reopened document shows must be,
+	// byte for byte, one of the pictures that were handed to the API (whatever their size)
+	for i, k := range blips(s2, true) {
+		if !supplied[k] {
+			res.Fail("C03.RT4", "picture %d (document order) after save+Open+save resolves to %s, which is none of the %d picture payloads handed to the API", i, k, len(supplied))
+			break
+		}
 	}
 
 	// 5. further cycles: RT3, never masked
@@ -958,22 +1028,32 @@ func pageDiff(a, b *document.PageSettings) string {
 func TestC03(t *testing.T) {
 	kit.Main(t, kit.Spec[Case]{
 		ID: "C03", Level: "exploration",
-		Rule: "document built by 8-30 (thorough 8-50) generated API calls (paragraph/run/table/picture/section setters with their argument ranges, XML-expressible text) " +
+		CaseLimit: 120 * time.Second, // documents with 30 MiB pictures or 10 M characters on a busy machine
+		Rule: "(a, ~88 % of the cases) document built by 8-30 (thorough 8-50) generated API calls (paragraph/run/table/picture/section setters with their argument ranges, XML-expressible text) " +
 			"including multi-valued formatting whose parts are drawn independently of each other (paragraph/cell/table borders per side incl. diagonals and insideH/insideV with own presence, style, size, colour, spacing; cell and table margins per side; run fonts per script; tab stop lists; indentation, spacing and page margins per component), " +
 			"optionally preceded by a scenario prefix, with 0-3 intermediate saves of the live document at arbitrary positions and (1 case in 3) a tail of one more save followed by 1-5 edits of existing elements, then 1-4 save/open cycles through memory or a file; non-trivial = (>=3 kinds of body children or a merged/nested table) " +
-			"and >=2 distinct successful formatting setters and >=2 cycles; distinct = distinct set of (op kind, outcome) plus cycle count",
+			"and >=2 distinct successful formatting setters and >=2 cycles; distinct = distinct set of (op kind, outcome) plus cycle count. " +
+			"(b, ~2 % quick / ~4 % thorough, plus three hand-written cases in every run) size classes: a short history of the same kind holding one or two parts of unusual size - a picture of 4 KiB .. 18 MiB (thorough: 36 MiB) " +
+			"at, one below, one above or a little above a power of two or round decimal size, in a PNG/JPEG/GIF container the decoders accept, through AddImageFromData / AddImageFromFile / AddCellImageFromData; a paragraph, run or cell text of 255 .. 4 Mi (thorough 10 M) characters " +
+			"(ASCII, multi-byte, or tabs/newlines/markup characters); 256 .. 5000 (thorough 65536) paragraphs, runs of one paragraph or table rows; tables of 63 .. 256 columns; 10 .. 256 pictures; non-trivial = >=2 cycles. " +
+			"(c, ~10 %) a package drawn by the independent foreign-package generator (every producer-side variation it has, formulas in 1 of 3), opened and taken through 3-5 save/open cycles: only the stability clause is judged " +
+			"(saves 2, 3, ... must have the same main part, unmasked, the same pictures, and their reopened bodies must be equal); non-trivial = >=2 body-level features; distinct = distinct feature set plus cycle count",
 		Gen: genCase, Run: run, Findings: findings,
 		Assumptions: []string{
 			"text arguments are restricted to what XML 1.0 can carry (other characters are replaced by the encoder, which is outside 'what the library can express')",
 			"the main part is compared through the harness's canonical XML reader; absent == empty only for w:pPr/w:rPr/w:tcPr/w:trPr/w:tblPr, xml:space ignored on empty w:t, namespace declarations ignored",
 			"a history in which an API call panics, or whose first save fails, is discarded (judged by C09/C01/C05)",
+			"pictures of unusual size are a small valid PNG/JPEG/GIF whose container carries filler bytes in the way the format provides for (private ancillary chunk, comment segments, comment extension); image/png, image/jpeg and image/gif decode them",
+			"a foreign package that the library refuses to open, or whose first save fails, is discarded (C04/C09 judge that); what the first cycle changes of a foreign document is not judged here (C04)",
 			"run fonts per script, tab stop lists and cell/table margins per side have no setter: they are built through the exported struct fields (RunProperties.FontFamily, ParagraphProperties.Tabs, TableCellProperties.TcMar, TableProperties.TableCellMar), as the library's own builders and examples do",
 		},
 		MustSee: map[string]float64{"feat:nested-table": 0.08, "feat:run-break": 0.1, "feat:floating-picture": 0.1, "cycles>=3": 0.3, "feat:merge-h": 0.08, "feat:merge-v": 0.05,
 			"op:align": 0.05, "op:spacing": 0.05, "op:indent": 0.05, "op:keepnext": 0.03, "op:keeplines": 0.03, "op:pbb": 0.03, "op:widow": 0.03, "op:outline": 0.03,
 			"intermediate-save": 0.4, "save-then-inplace-edit": 0.15, "op:snap": 0.03, "op:pstyle": 0.03, "op:pborder": 0.03, "op:pformat": 0.05, "feat:edge-whitespace-text": 0.2, "feat:non-ascii-text": 0.2,
 			"parts-differ": 0.3, "parts-differ:pborder4": 0.08, "parts-differ:cellborders6": 0.04, "parts-differ:tblborders6": 0.04, "parts-differ:ptabs": 0.05, "parts-differ:runfonts": 0.04,
-			"parts-differ:tcmar": 0.02, "parts-differ:tblcellmar": 0.03, "parts-differ:cellpborder4": 0.02},
+			"parts-differ:tcmar": 0.02, "parts-differ:tblcellmar": 0.03, "parts-differ:cellpborder4": 0.02,
+			"source:foreign": 0.06, "pkg:" + foreign.FTable: 0.01, "pkg:" + foreign.FPicture: 0.004, "big:any": 0.005, "big:picture>=8MiB+1": 0.001, "big:picture>=16MiB": 0.001,
+			"big:text>=1Mi": 0.001, "big:paragraphs>=4096": 0.001, "big:rows>=1000": 0.001, "big:cols>=64": 0.001, "big:pictures>=100": 0.001, "big:runs>=1000": 0.001},
 		Fixed: fixedCases,
 	})
 }
